@@ -379,6 +379,36 @@ pub fn run(args: &Args) -> ! {
         ctx.require_class(c);
     }
     super::c13b::run_reveals(&ctx);
+    if t == crate::engine::Tier::Thorough {
+        use crate::fuzz::{self, Campaign};
+        ctx.rule("fuzz:bvh (thorough): libFuzzer campaign (16 processes x fixed -runs, -seed from the seed, corpus of pseudo-random byte strings) over bytes decoded into (0..240 boxes on a 1 cm grid with frequent exact duplicates, leaf in {1,2,4,30}, 6 rays free or aimed at a box centre); oracle inside the target: BVH answer = testing every box; a panic, a hang (10 s, confirmed alone at 30 s) or a different answer is a violation. Non-trivial: every executed input (the decoder accepts all byte strings).");
+        if fuzz::build(&ctx) {
+            let seeds: Vec<(String, Vec<u8>)> = (0..16u64)
+                .map(|k| {
+                    let len = 40 + (crate::engine::mix(ctx.seed(), "C13/fuzz-seed-len", k) % 1500) as usize;
+                    let bytes: Vec<u8> = (0..len).map(|j| (crate::engine::mix(ctx.seed(), "C13/fuzz-seed", k * 4096 + j as u64) >> 24) as u8).collect();
+                    (format!("random-{}", k), bytes)
+                })
+                .collect();
+            fuzz::run(
+                &ctx,
+                &Campaign {
+                    sub: "fuzz:bvh",
+                    target: "bvh",
+                    sig_prefix: "C13:bvh:",
+                    procs: 16,
+                    runs_per_proc: 400_000,
+                    max_len: 2_000,
+                    only_ascii: false,
+                    seeds,
+                    dict: vec![],
+                    timeout_s: 10,
+                    nontrivial_classes: &["exec"],
+                },
+            );
+            ctx.require_class("fuzz:bvh/exec");
+        }
+    }
     ctx.finish()
 }
 
